@@ -792,7 +792,7 @@ func main() {
 			"states = distinct abstract scheduler states (thread program points + shim object states); transitions = scheduling steps; traces_validated_against_impl = complete executions of the implementation (every trace IS an implementation run)",
 		Assumptions: []string{
 			"sources of p2p are rewritten at check time (sync/atomic -> scheduler shims, channels -> csched.Chan, go -> csched.Go, net -> in-memory links); code between two synchronisation operations runs atomically",
-			"links are unbounded FIFOs (a write never blocks); a transport returning data together with io.EOF is outside the alphabet",
+			"links are unbounded FIFOs (a write never blocks); the read regime eofdata returns the last bytes of a closed stream together with io.EOF",
 		},
 		Work:           work,
 		Replay:         replay,
